@@ -112,6 +112,11 @@ func GlobalMoransI(data, weights []float64, locality mat.Matrix) (i, v, z float6
 	//  http://pro.arcgis.com/en/pro-app/tool-reference/spatial-statistics/h-global-morans-i-additional-math.htm
 	var s0, s1, s2 float64
 	var var2, var4 float64
+	var rowSums, colSums []float64
+	if isDoer {
+		rowSums = make([]float64, len(data))
+		colSums = make([]float64, len(data))
+	}
 	for i, v := range data {
 		v -= mean
 		v *= v
@@ -120,16 +125,21 @@ func GlobalMoransI(data, weights []float64, locality mat.Matrix) (i, v, z float6
 
 		var p2 float64
 		if isDoer {
+			// Only the non-zero w_ij are visited, so a pair with
+			// w_ij == 0 and w_ji != 0 is not seen in row i: collect
+			// (w_ij+w_ji)^2 = w_ij^2 + 2*w_ij*w_ji + w_ji^2 and the
+			// row sums of w_ij+w_ji from the visited elements only.
 			doer.DoRowNonZero(i, func(i, j int, wij float64) {
 				wji := locality.At(j, i)
 
 				s0 += wij
 
-				v := wij + wji
-				s1 += v * v
+				s1 += 2 * (wij*wij + wij*wji)
 
-				p2 += v
+				p2 += wij
+				colSums[j] += wij
 			})
+			rowSums[i] = p2
 		} else {
 			for j := range data {
 				wij := locality.At(i, j)
@@ -142,7 +152,11 @@ func GlobalMoransI(data, weights []float64, locality mat.Matrix) (i, v, z float6
 
 				p2 += v
 			}
+			s2 += p2 * p2
 		}
+	}
+	for i, p2 := range rowSums {
+		p2 += colSums[i]
 		s2 += p2 * p2
 	}
 	s1 *= 0.5
